@@ -178,9 +178,10 @@ def l1_cases(r, tier):
 # =================================================================== L2
 
 AGGS = ['Sum', 'Min', 'Max', 'Avg', 'Count', 'List', 'Set', 'ArgMin', 'ArgMax', 'ArgMinK', 'ArgMaxK', 'Array',
-        'Comb', 'CombL', 'Comb2', 'Multi']
+        'Comb', 'CombL', 'Comb2', 'Multi', 'LitKey', 'LitKey1']
 # Comb*: combine expressions in a rule body whose aggregated value is bound OUTSIDE the combine;
 # Multi: several aggregates in one head. Their results are per source row / per group records.
+# LitKey*: every grouping key is a literal and the body may select nothing (then: no row at all).
 
 
 STR_VALUES = ['a', 'b', 'ab', 'B', 'z', 'zz', 'y', '10', '9', 'm', 'Mm', 'c', 'ca', 'x y', 'k']
@@ -209,7 +210,7 @@ def gen_table(r, vtype='int'):
   return rows
 
 
-def reference_rows(rows, agg):
+def reference_rows(rows, agg, thr=0):
   """Row-set reference for the predicates that are not one value per group."""
   out = []
   if agg == 'Comb':
@@ -228,6 +229,12 @@ def reference_rows(rows, agg):
     for k, g in groups.items():
       out.append([k, sum(v for v, _ in g), max(v for v, _ in g), len({w for _, w in g}),
                   sorted(w for _, w in g)])
+  elif agg in ('LitKey', 'LitKey1'):
+    sel = [(v, w) for k, a, v, w in rows if w > thr]
+    if sel and agg == 'LitKey':
+      out.append(['big', sum(v for v, _ in sel), len({w for _, w in sel}), sorted(w for _, w in sel)])
+    elif sel:
+      out.append(['tag', sum(v for v, _ in sel)])
   return sorted(out, key=repr)
 
 
@@ -266,10 +273,10 @@ def reference_l2(rows, agg, kk):
   return out
 
 
-def agg_rule(agg, src, kk, src2=None):
+def agg_rule(agg, src, kk, src2=None, thr=0):
   if src2:
     # multi-body aggregation: the same head fed by two rules over two sources
-    one = agg_rule(agg, src, kk)
+    one = agg_rule(agg, src, kk, thr=thr)
     lines = one.split('\n')
     last = lines[-1]
     return '\n'.join(lines + [last.replace('%s(k:, a:, v:, w:)' % src, '%s(k:, a:, v:, w:)' % src2)])
@@ -280,6 +287,10 @@ def agg_rule(agg, src, kk, src2=None):
     return 'TCombL(k, a, l) :- %s, l List= (a :- x in Range(w + 1));' % body
   if agg == 'Comb2':
     return 'TComb2(k, a, s, n) :- %s, s += (v :- x in Range(w + 1)), n += (1 :- x in Range(w + 1));' % body
+  if agg == 'LitKey':
+    return 'TLitKey(tag: "big", s? += v, c? Count= w, l? List= w) distinct :- %s, w > %d;' % (body, thr)
+  if agg == 'LitKey1':
+    return 'TLitKey1("tag") += v :- %s, w > %d;' % (body, thr)
   if agg == 'Multi':
     return 'TMulti(k:, s? += v, m? Max= v, c? Count= w, l? List= w) distinct :- %s;' % body
   if agg == 'Sum':
@@ -311,7 +322,9 @@ def agg_rule(agg, src, kk, src2=None):
 
 def lit(x):
   if isinstance(x, str):
-    return json.dumps(x)
+    if '"' not in x and '\n' not in x:
+      return '"%s"' % x        # as typed: non-ASCII characters and backslashes stay themselves
+    return json.dumps(x, ensure_ascii=False)
   if isinstance(x, float):
     return repr(x) if x >= 0 else '(%r)' % x
   if isinstance(x, list):
@@ -367,15 +380,36 @@ def gen_scalars(r, n):
   cells = []
   ints = [0, 1, 2, 3, 5, 7, -1, -4, 10]
   lists = [[], [0], [3, 1, 2], [5, 5, 1], [2, 7, 1, 8], [-1, 0, 4]]
-  strs = ['', 'a', 'ab', 'a,b', 'x y', 'fire', '1,2,3', ',']
+  strs = ['', 'a', 'ab', 'a,b', 'x y', 'fire', '1,2,3', ',', '\u00e9', '\u00fc,\u00e9', '\u0436', 'a\\b']
   for _ in range(n):
     f = r.choice(['Range', 'Size', 'Element', 'Subscript', 'Sort', 'ArrayConcat', 'Concat', 'Join',
                   'Split', 'ToString', 'ToInt64', 'Least', 'Greatest', 'Plus', 'Minus', 'Times',
                   'SizeRange', 'InFilter', 'Cmp', 'Empty', 'Empty', 'Boundary', 'Boundary', 'Compose', 'Nested', 'Nested',
-                  'Strings', 'Strings', 'AggOfAgg'])
-    if f == 'Strings':
+                  'Strings', 'Strings', 'AggOfAgg', 'Member', 'Member'])
+    if f == 'Member':
+      # `item in list` as a condition, the list coming from a literal or from another built-in;
+      # strings include non-ASCII characters and a backslash
+      kind = r.choice(['str', 'str', 'int'])
+      if kind == 'str':
+        base = r.choice([['a', 'b'], ['\u00e9', '\u00fc'], ['x', '\u00e9', 'a\\b'], ['\u0436'], ['a\\b', 'c'], ['', 'a']])
+        item = r.choice(base + ['a', '\u00e9', 'zz', 'a\\b', ''])
+        srcs = [lit(base), 'Sort(%s)' % lit(base), 'ArrayConcat(%s, ["q"])' % lit(base)]
+        if all(',' not in x and x for x in base):
+          srcs.append('Split(%s, ",")' % lit(','.join(base)))
+      else:
+        base = r.choice([[1, 2, 3], [0], [-1, 5], [10, 2]])
+        item = r.choice(base + [0, 7, -1])
+        srcs = [lit(base), 'Sort(%s)' % lit(base), 'ArrayConcat(%s, [99])' % lit(base), 'Range(%d)' % max(base)]
+      src = r.choice(srcs)
+      if src.startswith('Range('):
+        truth = item in list(range(max(base)))
+      else:
+        truth = item in base
+      cells.append(['In', ('List', 'x', 'x in [1], %s in %s' % (lit(item), src)), [1] if truth else []])
+    elif f == 'Strings':
       sep = r.choice([',', '--', ' ', 'ab'])
-      parts = r.choice([['a', 'b', ''], ['', 'a'], ['', ''], ['x'], ['a', '', 'b'], ['1', '22', '333'], ['ab', 'ba']])
+      parts = r.choice([['a', 'b', ''], ['', 'a'], ['', ''], ['x'], ['a', '', 'b'], ['1', '22', '333'], ['ab', 'ba'],
+                        ['\u00e9', '\u00fc'], ['\u0436', '', 'z'], ['a\\b', 'c']])
       if any(sep in p_ for p_ in parts):
         parts = ['x', 'y', '']
       text_ = sep.join(parts)
@@ -570,7 +604,9 @@ EXCLUDED_CELLS = [
     '% on negative operands', '^ (float result formatting)', 'Sum/Avg over floats',
     'Element/subscript out of range', 'ArgMin/ArgMax/Array with tied values (excluded by the property)',
     'List element order (only the multiset is defined)', 'Split with an empty separator', 'ToInt64 of a non-numeric string',
-    'ANY_VALUE/TakeFirst (any value is correct by definition)']
+    'ANY_VALUE/TakeFirst (any value is correct by definition)',
+    '== between two list values (lists are JSON text on SQLite; equality of lists is not documented)',
+    'lists of lists, lists as elements of `in`', 'escape sequences inside string literals']
 
 
 def build_program(case, dbpath):
@@ -594,7 +630,7 @@ def build_program(case, dbpath):
         lines.append('D2(k: %s, a: %s, v: %s, w: %s);' % (lit(k), lit(a), lit(v), lit(w)))
   preds = []
   for agg in case['aggs']:
-    lines.append(agg_rule(agg, src, case['kk'], src2))
+    lines.append(agg_rule(agg, src, case['kk'], src2, thr=case.get('thr', 0)))
     preds.append('T' + agg)
   if case['scalars']:
     for i, (name, expr, _) in enumerate(case['scalars']):
@@ -648,15 +684,17 @@ def run_l2(case, scratch):
       return vs
     for agg in case['aggs']:
       hdr, rows = res['T' + agg]
-      if agg in ('Comb', 'CombL', 'Comb2', 'Multi'):
+      if agg in ('Comb', 'CombL', 'Comb2', 'Multi', 'LitKey', 'LitKey1'):
         got_rows = []
         for row in rows:
           row = [decode(x) for x in row]
           if agg == 'Multi':
             row[4] = sorted(row[4]) if isinstance(row[4], list) else row[4]
+          if agg == 'LitKey':
+            row[3] = sorted(row[3]) if isinstance(row[3], list) else row[3]
           got_rows.append(row)
         got_rows = sorted(got_rows, key=repr)
-        want_rows = reference_rows(case['rows'], agg)
+        want_rows = reference_rows(case['rows'], agg, case.get('thr', 0))
         if got_rows != want_rows:
           vs.append({'class': 'wrong-aggregate', 'key': agg,
                      'message': '%s over rows %s (mode %s, index %s) returned %s, defined value %s' % (
@@ -698,16 +736,17 @@ def run_l2(case, scratch):
   return vs
 
 
-NUMERIC_ONLY = ('Sum', 'Avg', 'Comb', 'Comb2', 'Multi')
+NUMERIC_ONLY = ('Sum', 'Avg', 'Comb', 'Comb2', 'Multi', 'LitKey', 'LitKey1')
 
 
 def l2_cases(r, tier):
   vtype = r.choice(['int', 'int', 'int', 'float', 'str'])
   rows = gen_table(r, vtype)
-  pool = [a for a in AGGS if vtype == 'int' or (vtype == 'float' and a != 'Multi') or a not in NUMERIC_ONLY]
+  pool = [a for a in AGGS if vtype == 'int' or (vtype == 'float' and a not in ('Multi', 'LitKey')) or a not in NUMERIC_ONLY]
   aggs = r.sample(pool, r.choice([2, 3, 4]))
   kk = r.choice([1, 2, 2, 3, 5])
   scalars = gen_scalars(r, r.choice([0, 4, 8]))
+  thr = r.choice([-1, 0, 1, 2, 3, 3])     # w is 0..3: with 3 the literal-key rules select nothing
   cases = []
   n_orders = 3
   for j in range(n_orders):
@@ -720,7 +759,7 @@ def l2_cases(r, tier):
       r.shuffle(o)
     # two-body aggregation: both sources non-empty (an empty fact predicate is not a program)
     split = r.randint(1, len(o) - 1) if (len(o) >= 2 and r.random() < 0.35) else None
-    cases.append({'layer': 'L2', 'rows': o, 'aggs': aggs, 'kk': kk, 'split': split,
+    cases.append({'layer': 'L2', 'rows': o, 'aggs': aggs, 'kk': kk, 'split': split, 'thr': thr,
                   'mode': r.choice(['table', 'table', 'facts']),
                   'index': r.choice([None, None, 'k', 'v', 'a', 'v DESC']),
                   'scalars': scalars if j == 0 else []})
